@@ -220,7 +220,7 @@ func (g *gen) step() bool {
 	}
 	isList := func(p path) bool { _, ok := p.val.(*zn.ListV); return ok }
 	isDict := func(p path) bool { _, ok := p.val.(*zn.DictV); return ok }
-	switch g.pick(15, "action") {
+	switch g.pick(16, "action") {
 	case 0, 1: // declare from a literal
 		add(&zn.Let{Names: []string{g.name()}, E: g.literal(3)})
 	case 2, 3: // declare from a variable / element / property (copy)
@@ -405,6 +405,27 @@ func (g *gen) step() bool {
 			body = append(body, set(v(lv), g.scalar()))
 			add(&zn.ForEach{Names: []string{lv}, E: p.expr, Body: body})
 			g.labels["loop-variable"] = true
+		}
+	case 15: // loop over a LITERAL whose items are variables / paths: the loop variable is a copy of the item
+		if p, ok := pickPath("litloop", func(p path) bool { return isList(p) || isDict(p) }); ok {
+			lv := g.name()
+			var mut zn.Stmt
+			if isList(p) {
+				mut = &zn.ExprStmt{E: mc(v(lv), "后增", g.scalar())}
+			} else {
+				mut = &zn.ExprStmt{E: mc(v(lv), "写入", &zn.Str{V: "lit"}, g.scalar())}
+			}
+			var coll zn.Expr = &zn.ListLit{Items: []zn.Expr{p.expr, g.scalar()}}
+			if g.pick(2, "litdict") == 0 {
+				coll = &zn.DictLit{Keys: []string{"p", "q"}, Vals: []zn.Expr{p.expr, g.scalar()}}
+			}
+			add(&zn.ForEach{Names: []string{lv}, E: coll, Body: []zn.Stmt{
+				&zn.If{Conds: []zn.Expr{&zn.Bin{Op: "/=", L: v(lv), R: num(-1)}}, Blocks: [][]zn.Stmt{{show("lit-lv", v(lv))}}},
+			}})
+			// (the mutating pass only for the item that is a collection)
+			add(&zn.ForEach{Names: []string{lv}, E: &zn.ListLit{Items: []zn.Expr{p.expr}}, Body: []zn.Stmt{mut, show("lit-lv-mutated", v(lv))}})
+			g.labels["loop-over-literal-of-variables"] = true
+			g.deepMutAfterCopy = true
 		}
 	case 13: // a literal executed repeatedly must be fresh each time
 		tv := g.name()
